@@ -1,6 +1,6 @@
-// C03: functions of the state-root / storage-key path for the Go->Lean translator of gofuncs.go (appended
-// to its spec list; a function outside the supported subset is reported as NOT TRANSLATED and only breaks
-// the theorems that mention it). Each is read through a Sink: the integer that reaches the key encoder.
+// C03: functions of the historic-read / state-root / storage-key path for the Go->Lean translator of
+// gofuncs.go (appended to its spec list; a function outside the supported subset is reported as NOT
+// TRANSLATED and only breaks the theorems that mention it).
 package main
 
 func init() {
@@ -8,5 +8,14 @@ func init() {
 		gfSpec{Pkg: "./pkg/core/stateroot", Recv: "Module", Func: "GetStateRoot", Lean: "moduleGetStateRoot", Sink: "makeStateRootKey"},
 		gfSpec{Pkg: "./pkg/core/stateroot", Recv: "Module", Func: "addLocalStateRoot", Lean: "moduleAddLocalStateRoot", Sink: "makeStateRootKey"},
 		gfSpec{Pkg: "./pkg/services/rpcsrv", Func: "makeStorageKey", Lean: "rpcStorageKeyID", Sink: "binary.LittleEndian.PutUint32"},
+		// which height's state root a historic invocation is bound to
+		gfSpec{Pkg: "./pkg/core", Recv: "Blockchain", Func: "GetTestHistoricVM", Lean: "historicVMStateHeight", Sink: "bc.stateRoot.GetStateRoot"},
+		gfSpec{Pkg: "./pkg/core", Recv: "Blockchain", Func: "GetTestHistoricVM", Lean: "historicVM"},
+		gfSpec{Pkg: "./pkg/services/rpcsrv", Recv: "Server", Func: "getHistoricParams", Lean: "rpcHistoricParams"},
+		gfSpec{Pkg: "./pkg/core/stateroot", Recv: "Module", Func: "UpdateCurrentLocal", Lean: "moduleUpdateCurrentLocal"},
+		gfSpec{Pkg: "./pkg/core/stateroot", Recv: "Module", Func: "JumpToState", Lean: "moduleJumpToState"},
+		gfSpec{Pkg: "./pkg/core/stateroot", Recv: "Module", Func: "Init", Lean: "moduleInit"},
+		gfSpec{Pkg: "./pkg/core/mpt", Recv: "TrieStore", Func: "Get", Lean: "trieStoreGet"},
+		gfSpec{Pkg: "./pkg/core/mpt", Recv: "Trie", Func: "Get", Lean: "trieGet"},
 	)
 }
